@@ -4,20 +4,21 @@ import os
 
 PROP = {
     "bin": "c19",
-    "coq_targets": ["theories/Elf/C19Check", "theories/Elf/ElfProofs", "theories/Elf/ElfLink"],
+    "coq_targets": ["theories/Elf/C19Check", "theories/Elf/ElfProofs", "theories/Elf/ElfLink", "theories/Elf/ElfMips"],
     "n": {"quick": int(os.environ.get("C19_N", "320")), "thorough": 6000},
-    "theorems": ["memory_image", "arch_of_header", "rebase_uniform_memory", "rebase_uniform_sections", "rebase_uniform_entries", "rebase_uniform_symbols", "rebase_uniform_program_entry", "entries_are", "reloc_once_partial", "reloc_once"],
+    "theorems": ["memory_image", "arch_of_header", "rebase_uniform_memory", "rebase_uniform_sections", "rebase_uniform_entries", "rebase_uniform_symbols", "rebase_uniform_program_entry", "entries_are", "reloc_once_partial", "reloc_once", "reloc_once_relative", "reloc_once_link", "reloc_once_mips"],
     "rule": "one xoshiro256** stream per (seed,index): 80% single objects (ELF32/64, LE/BE, EM_386/X86_64/MIPS/PPC/AARCH64 plus refused PPC-LE and "
             "unsupported machines; 1-5 program headers with filesz <= memsz, random flags incl. OS bits, odd alignments, occasional overlap; .symtab and, in 60%, "
             "a dynamic segment with .dynsym/.hash/PLT relocations; 0-2 user entries) loaded at base 0 and at a base from {0, 0x1000, 0x40000000, random}; "
-            "20% EM_386 main + libx.so (DT_NEEDED, 1-4 JMP_SLOT/GLOB_DAT/R_386_32 relocations) through ElfLinker; "
+            "10% EM_386 main + one or two libraries (DT_NEEDED libx.so/liby.so at 0x42000000/0x44000000, duplicate definitions; or just_interpreter with /ld.so at 0x40000000; 1-4 JMP_SLOT/GLOB_DAT/R_386_32 relocations) and 10% EM_MIPS (BE/LE) main + libx.so (GOT with local/global entries, "
+            "R_MIPS_REL32 with and without a named symbol) through ElfLinker; "
             "non-trivial = loaded with base != 0, or linked; distinct by the whole case text",
     "trusted_base": [KERNEL, HARNESS_TB, "goblin 0.6.0 (ELF parser: the model's inputs are what goblin parsed from the generated file)"],
     "assumptions": ["goblin parses the generated files as written", "u64 additions are overflow-checked (harness build profile)"],
-    "partial": ["reloc_once is proved for the modelled x86 relocation pass (relocs_x86: R_386_32/GLOB_DAT/JMP_SLOT, disjoint slots each inside one stored section) "
-                "and for the symbol table of the two-object link (reloc_once_partial); that the slots of a concrete link lie inside one section of the merged memory is a hypothesis; "
-                "R_386_RELATIVE, relocations_mips, DT_NEEDED recursion beyond one library, just_interpreter and program_verbose/program_recursive_verbose are not covered by theorems "
-                "(the first is modelled and tied, the others are not modelled)"],
+    "partial": ["reloc_once: x86 pass proved at memory level incl. R_386_RELATIVE (reloc_once, reloc_once_relative) and for the whole two-object link from "
+                "description-level hypotheses (reloc_once_link: symbolic kinds, library without relocations of its own); MIPS pass proved for external global GOT entries "
+                "(reloc_once_mips); MIPS local GOT entries and R_MIPS_REL32 words, a library with its own relocations at description level: modelled and tied, no theorem; "
+                "several DT_NEEDED libraries and just_interpreter: modelled and tied, no theorem beyond linkn_one; nested DT_NEEDED, dynrelas, program_verbose/program_recursive_verbose: not modelled"],
     "level_text": "Unbounded Coq theorems that the Gallina transcription of loader::Elf (after goblin) maps exactly the image (file bytes, zero fill, translated R/W/X, nothing else), "
                   "selects the architecture named in the header, reports exactly the defined function symbols + entry + user entries, and rebases memory, entries, symbols and the "
                   "program entry uniformly; plus an in-kernel differential tie of that transcription (and of the x86 linker path) to the Rust code on generated ELF files.",
